@@ -194,7 +194,10 @@ def roundTo53 (v : Nat) : Nat :=
 def res53Num (v : UInt64) : Nat := roundTo53 v.toNat
 
 /-- exact conversion of a `res53Num` to `Float` (the numerator has ≤ 53 significant bits and is ≤ 2⁶⁴) -/
-def res53ToFloat (n : Nat) : Float := (Float.ofNat n).scaleB (-64)
+def res53ToFloat (n : Nat) : Float :=
+  -- `UInt64.toFloat` is the hardware conversion (exact here: ≤ 53 significant bits); `Float.ofNat` is avoided
+  -- because it runs Lean's software float model.  `0x3bf0000000000000` is 2⁻⁶⁴.
+  if n ≥ 2 ^ 64 then 1.0 else n.toUInt64.toFloat * Float.ofBits 0x3bf0000000000000
 
 /-- exact conversion to `Rat` -/
 def res53ToRat (n : Nat) : Rat := mkRat (Int.ofNat n) (2 ^ 64)
